@@ -10,6 +10,7 @@ CONSTANTS
   TG = "t22s"
   LAYOUTS = {"dfs"}
   EMIT = TRUE
+VIEW View
 INVARIANTS LawCompose IndicesKept ResultWellFormed
 ACTION_CONSTRAINT Emit
 CHECK_DEADLOCK FALSE
